@@ -9,6 +9,7 @@
 #include <stdio.h>
 #include <string.h>
 #include <utility>
+#include <new>
 
 static char g_log[256]; static int g_n = 0;
 static void rec(char who, char what) { if (g_n < 250) { g_log[g_n++] = who; g_log[g_n++] = what; g_log[g_n] = 0; } }
@@ -53,8 +54,25 @@ template <bool HEAD> static void all_forms() {
 		{ typename S::Inst m{nullptr}; snprintf(form, sizeof form, "%s, null pointer context", h); S::drive(m, form); } g_n = 0; g_log[0] = 0; }
 }
 
+// a machine that is moved (explicitly, or when a container grows) or copied between a request and its processing still carries the request
+template <bool HEAD> static void relocated() {
+	using S = Shape<ffsm2::Config, HEAD>; using FSM = typename S::FSM; char form[64];
+	for (int how = 0; how < 2; ++how) {
+		typename S::Inst a; g_n = 0; g_log[0] = 0;
+		a.changeTo(FSM::template stateId<typename S::C>());
+		alignas(typename S::Inst) static unsigned char store[sizeof(typename S::Inst)];
+		typename S::Inst* b = how == 0 ? new (store) typename S::Inst(std::move(a)) : new (store) typename S::Inst(a);
+		snprintf(form, sizeof form, "%s, %s-constructed with a request pending", HEAD ? "Root" : "PeerRoot", how == 0 ? "move" : "copy");
+		expect(form, "construction of the new object", "");
+		b->update(); expect(form, "update() on the new object", HEAD ? "RuAuCgAxCe" : "AuCgAxCe");
+		++g_checks; if (b->activeStateId() != FSM::template stateId<typename S::C>()) { ++g_bad; printf("MISMATCH [%s] active state %d, the request made before the relocation leads to %d\n", form, static_cast<int>(b->activeStateId()), static_cast<int>(FSM::template stateId<typename S::C>())); }
+		g_n = 0; g_log[0] = 0;   // neither object is destroyed: both would run the final exit
+	}
+}
+
 int main() {
 	all_forms<false>(); all_forms<true>();
+	relocated<false>(); relocated<true>();
 	printf("constructor forms: %u checks, %d mismatches\n", g_checks, g_bad);
 	return g_bad ? 1 : 0;
 }
